@@ -326,7 +326,7 @@ pub fn c19(ctx: &Ctx) -> PropResult {
         panic!("cannot build the aplang binary: {e}");
     }
     // `..` is resolved as the kernel does (through existing directories only); no path climbs above the work directory
-    let paths = ["f1", "f2", "d", "d/f", "d/e", "d/e/g", "", ".", "d/", "./f1", "nope/x", "f1/x", "d/..", "d/../f1", "d/e/..", "d/e/../f", "nope/../f1", "f1/../f2", "d/../d/e", "d/e/../../f2", "./d/../f1"];
+    let paths = ["f1", "f2", "d", "d/f", "d/e", "d/e/g", "", ".", "d/", "./f1", "nope/x", "f1/x", "d/..", "d/../f1", "d/e/..", "d/e/../f", "nope/../f1", "f1/../f2", "d/../d/e", "d/e/../../f2", "./d/../f1", "f1/.", "d/.", "d/e/.", "nope/.", "d/./", "./.", "d/../.", "n1/n2/.", "d/e/./.."];
     let contents = ["\"text\"", "\"héllo\\n\"", "12.5", "TRUE", "NULL", "[1, \"a\"]", "\"\""];
     let ops = ["PATH_EXISTS", "PATH_IS_FILE", "PATH_IS_DIRECTORY", "FILE_REMOVE", "FILE_CREATE", "FILE_READ", "FILE_APPEND", "FILE_OVERWRITE", "DIRECTORY_READ", "DIRECTORY_CREATE", "DIRECTORY_CREATE_ALL", "DIRECTORY_REMOVE", "DIRECTORY_REMOVE_ALL"];
     let stmt = |op: &str, p: &str, c: &str| -> String {
@@ -341,7 +341,7 @@ pub fn c19(ctx: &Ctx) -> PropResult {
     let mut rng = mk_rng(ctx.seed, 19);
     let pre = "IMPORT MOD \"FS\"\nIMPORT MOD \"STRING\"\n";
     // exhaustive: all histories of length 2 over 6 paths (quick: sampled), after a fixed creation prefix or not
-    let core_paths = ["f1", "d", "d/f", "d/e", "", "f1/x", "d/../f1", "d/e/..", "nope/../f1"];
+    let core_paths = ["f1", "d", "d/f", "d/e", "", "f1/x", "d/../f1", "d/e/..", "nope/../f1", "f1/.", "d/.", "nope/."];
     let mut all2 = vec![];
     for o1 in ops {
         for p1 in core_paths {
